@@ -9,47 +9,60 @@ import Pulsar.Properties.C17
 namespace Pulsar.Timepb
 open Pulsar
 
-/-- the translated functions are the hand-written models, on all inputs (nil included) -/
-theorem C17_src_Compare_is_model (a b : Option SN) : Xf.timepb_Compare a b = compareOpt a b := src_Compare a b
-theorem C17_src_Add_is_model (t : Option SN) (d : SN) : Xf.timepb_Add t (some d) = add t d := src_Add t d
+/-- a valid Duration is a value of the message type (seconds an int64, nanos an int32) -/
+theorem ValidDur.inRange {d : SN} (h : ValidDur d) : InRange d := by
+  unfold ValidDur at h; unfold InRange; omega
+
+/-- the translated functions are the hand-written models, on all values of the message types (nil included):
+    seconds any int64, nanos any int32 -/
+theorem C17_src_Compare_is_model (a b : Option SN) (ha : InR a) (hb : InR b) :
+    Xf.timepb_Compare a b = compareOpt a b := src_Compare a b ha hb
+theorem C17_src_Add_is_model (t : Option SN) (d : SN) (ht : InR t) (hd : InRange d) :
+    Xf.timepb_Add t (some d) = add t d := src_Add t d ht hd
+
+theorem inR_some {t : SN} (h : InRange t) : InR (some t) := fun v hv => by cases hv; exact h
 
 /-- exact and normalised: for valid t and d the translated `Add` returns the normalised representation of t + d -/
 theorem C17_src_add_exact (t d : SN) (ht : ValidTS t) (hd : ValidDur d) :
     ∃ r, Xf.timepb_Add (some t) (some d) = .ok (some r) ∧ inst r = inst t + inst d ∧ Normalised r := by
   obtain ⟨r, h, hi⟩ := C17_add_exact t d ht hd
-  exact ⟨r, by rw [src_Add]; exact h, hi, C17_add_normalised t d r ht hd h⟩
+  exact ⟨r, by rw [src_Add _ _ (inR_some ht.inRange) hd.inRange]; exact h, hi, C17_add_normalised t d r ht hd h⟩
 
 /-- when the exact seconds sum does not fit in an int64 the translated `Add` panics … -/
 theorem C17_src_add_overflow_panics (t d : SN) (ht : InRange t) (hn : Normalised t) (hd : ValidDur d)
     (hov : let total := inst t + inst d
            total / 1000000000 < -9223372036854775808 ∨ total / 1000000000 > 9223372036854775807) :
     Xf.timepb_Add (some t) (some d) = .panic := by
-  rw [src_Add]; exact C17_add_overflow_panics t d ht hn hd hov
+  rw [src_Add _ _ (inR_some ht) hd.inRange]; exact C17_add_overflow_panics t d ht hn hd hov
 
 /-- … and whenever it returns, the value is exact and normalised: no wrapped value is ever returned -/
 theorem C17_src_add_no_wrap (t d r : SN) (ht : InRange t) (hn : Normalised t) (hd : ValidDur d)
     (h : Xf.timepb_Add (some t) (some d) = .ok (some r)) : inst r = inst t + inst d ∧ Normalised r := by
-  rw [src_Add] at h; exact C17_add_no_wrap t d r ht hn hd h
+  rw [src_Add _ _ (inR_some ht) hd.inRange] at h; exact C17_add_no_wrap t d r ht hn hd h
 
 /-- nil in, nil out -/
-theorem C17_src_add_nil (d : SN) : Xf.timepb_Add none (some d) = .ok none := by
-  rw [src_Add]; rfl
+theorem C17_src_add_nil (d : SN) (hd : InRange d) : Xf.timepb_Add none (some d) = .ok none := by
+  rw [src_Add _ _ (fun v hv => by cases hv) hd]; rfl
 
 /-- the translated `Compare` orders normalised timestamps as their instants -/
-theorem C17_src_compare_chronological (a b : SN) (ha : Normalised a) (hb : Normalised b) :
+theorem C17_src_compare_chronological (a b : SN) (ha : InRange a) (hb : InRange b)
+    (hna : Normalised a) (hnb : Normalised b) :
     ∃ c, Xf.timepb_Compare (some a) (some b) = .ok c ∧
       (c = -1 ↔ inst a < inst b) ∧ (c = 0 ↔ inst a = inst b) ∧ (c = 1 ↔ inst a > inst b) :=
-  ⟨compare a b, by rw [src_Compare]; rfl, C17_compare_chronological a b ha hb⟩
+  ⟨compare a b, by rw [src_Compare _ _ (inR_some ha) (inR_some hb)]; rfl, C17_compare_chronological a b hna hnb⟩
 
 /-- `Compare` panics on nil (documented behaviour) -/
-theorem C17_src_compare_nil (a : Option SN) : Xf.timepb_Compare none a = .panic ∧ Xf.timepb_Compare a none = .panic := by
-  constructor <;> (rw [src_Compare]; cases a <;> rfl)
+theorem C17_src_compare_nil (a : Option SN) (ha : InR a) :
+    Xf.timepb_Compare none a = .panic ∧ Xf.timepb_Compare a none = .panic := by
+  constructor
+  · rw [src_Compare _ _ (fun v hv => by cases hv) ha]; cases a <;> rfl
+  · rw [src_Compare _ _ ha (fun v hv => by cases hv)]; cases a <;> rfl
 
 /-! non-vacuity through the translated code -/
 example : Xf.timepb_Add (some ⟨10, 0⟩) (some ⟨0, -5⟩) = .ok (some ⟨9, 999999995⟩) := by
-  rw [src_Add]; decide
+  rw [src_Add _ _ (inR_some (by unfold InRange; decide)) (by unfold InRange; decide)]; decide
 example : Xf.timepb_Add (some ⟨9223372036854775807, 1000⟩) (some ⟨0, 999999999⟩) = .panic := by
-  rw [src_Add]; decide
+  rw [src_Add _ _ (inR_some (by unfold InRange; decide)) (by unfold InRange; decide)]; decide
 
 end Pulsar.Timepb
 
